@@ -201,31 +201,31 @@ fn mirror_harness<const N: usize>() {
 }
 
 #[kani::proof]
-#[kani::unwind(4)]
+#[kani::unwind(3)]
 fn elect2_perm_swap() {
     perm_harness::<2>([1, 0]);
 }
 
 #[kani::proof]
-#[kani::unwind(4)]
+#[kani::unwind(3)]
 fn elect2_mirror() {
     mirror_harness::<2>();
 }
 
 #[kani::proof]
-#[kani::unwind(5)]
+#[kani::unwind(4)]
 fn elect3_perm_swap() {
     perm_harness::<3>([1, 0, 2]);
 }
 
 #[kani::proof]
-#[kani::unwind(5)]
+#[kani::unwind(4)]
 fn elect3_perm_rot() {
     perm_harness::<3>([1, 2, 0]);
 }
 
 #[kani::proof]
-#[kani::unwind(5)]
+#[kani::unwind(4)]
 fn elect3_mirror() {
     mirror_harness::<3>();
 }
